@@ -32,7 +32,15 @@ def snapshot(g):
     return (repr(n), str(g.version), tuple(tz), len(g), tuple(id(r) for r in g))
 
 
-def check_grid(g, m1, chain=True):
+def has_nan(g):
+    """NaN is not equal to itself, and a zone-less stamp comes back under a zone name (another tzinfo object, which Grid ==
+    compares): for such grids the library's == is not expected to say True."""
+    from vf import hs as _hs
+    return any((x[0] == 'num' and isinstance(x[1], float) and x[1] != x[1]) or (x[0] == 'dt' and x[3] is None)
+               for _, x in D.walk(_hs.from_grid(g), 'top'))
+
+
+def check_grid(g, m1, chain=True, content=True):
     """g: grid returned by parse(.., m1). Returns (symptom|None, detail, m2)."""
     import hszinc
     for m2 in ('zinc', 'json'):
@@ -55,8 +63,25 @@ def check_grid(g, m1, chain=True):
             return 'reparse-raises:' + type(e).__name__, 'parse(dump(g, %s)): %s | text %r' % (m2, str(e)[:200], s[:200]), m2
         tol = (m1 == 'json' or m2 == 'json')
         d = D.grid_diff(hs.from_grid(g), hs.from_grid(g2), tol)
-        if d:
+        if d and content:
             return 'transcode:' + d[1], '%s->%s %s: %s' % (m1, m2, d[0], d[2]), m2
+        # the library's own equality on the two grids (it reads the values, which must not disturb them), then the
+        # grid once more: still the same text
+        try:
+            eq = (g == g2)
+        except Exception as e:
+            return 'equality-raises:' + type(e).__name__, '%s->%s: parsed grid == re-parsed grid raised %s' % (m1, m2, str(e)[:120]), m2
+        if content and not d and eq is not True and not has_nan(g):
+            return 'reparsed-grid-not-equal', '%s->%s: the grid parsed from the dump does not compare equal (==) to the dumped grid' % (m1, m2), m2
+        try:
+            s5 = hszinc.dump(g, mode=MODES[m2])
+        except Exception as e:
+            return 'dump-after-compare-raises:' + type(e).__name__, str(e)[:200], m2
+        if s5 != s:
+            return 'dump-not-deterministic', 'the same grid dumps (%s) differently after it was compared with ==: %r, before %r' % (
+                m2, s5[:200], s[:200]), m2
+        if not content:
+            continue
         # normalisation idempotence in format m2: N(x) = dump(parse(x)); here s = N-form of g in m2
         try:
             s3 = hszinc.dump(g2, mode=MODES[m2])
@@ -169,6 +194,10 @@ def judge(ns, m1, seed, script=None):
         except Exception:
             return 'skip', 'reader rejected', {'text': text}
     if D.grid_diff(ns[0], hs.from_grid(g), m1 == 'json'):
+        # what the grid holds is C03/C05's business; that dumping it is a pure function of it is still this property's
+        sym, detail, m2 = check_grid(g, m1, chain=False, content=False)
+        if sym and sym.split(':')[0] in ('dump-not-deterministic', 'dump-mutated-grid'):
+            return sym, detail + ' (grid the reader did not decode as written)', {'text': text, 'm2': m2, 'trace': w.trace}
         return 'skip', 'reader mis-decoded (C03/C05)', {'text': text}
     sym, detail, m2 = check_grid(g, m1)
     return sym, detail, {'text': text, 'm2': m2, 'trace': w.trace}
